@@ -282,6 +282,11 @@ package server
 // under its own lock, none nested.
 //@ func (*userPanel).TerminateActiveUser
 //@   requires panel != nil && user != nil && holdsNone()
+//@   # C15/C16: termination is complete - the usage still in the valve is queued, EVERY session of the user is
+//@   # closed, and only then the record is taken out of the table (a reconnect starts from zero sessions)
+//@   ensures usageQueued: called("(*userPanel).updateUsageQueueForOne")
+//@   ensures sessionsClosed: called("(*ActiveUser).closeAllSessions")
+//@   atcall delete requires afterClosing: called("(*ActiveUser).closeAllSessions")
 //@   ensures locks: holdsNone()
 //@   modifies *
 //@   preserves $KEEP
